@@ -328,7 +328,7 @@ func c35Bijection(c *vk.Ctx, mask uint32) {
 func TestVerif_C35(t *testing.T) {
 	logrus.SetLevel(logrus.PanicLevel)
 	vk.Run(t, "C35", func(c *vk.Ctx) {
-		maxBits := c.Pick(3, 4)
+		maxBits := 12
 		c.Rule(fmt.Sprintf("configurations = masks with <=%d bits in a 12-bit window at shifts 0/8/20 + 11 structured masks; per mask: states = (numBitsAllocated, numFreeBits, union of bits handed out, failed-attempt count<=2), "+
 			"transitions = one real NextSingleBitMark / NextBlockBitsMark(0,1,2,3,5,33) call replayed on a fresh manager, explored to fixpoint; plus one transition per number->mark->number round trip (all numbers < 2^bits; "+
 			"for masks wider than 16 bits in the quick tier: numbers with <=2 bits set or clear); non-trivial = >=2 bits handed out or an allocation attempt on an exhausted mask", maxBits))
